@@ -218,9 +218,17 @@ def statFile (fs : FS) (fuel : Nat) (cwd : Loc) (p : Str) : Option (Nat × Bool)
     | _ => none
   | none => none
 
+/-- Linux PATH_MAX: a path string of this many bytes or more (the terminating NUL included in the
+count) is refused by every system call with ENAMETOOLONG before any lookup.  Modelled at the open of
+the tensor's path only (the strings `os.path.realpath` passes to `os.lstat` are built from resolved
+prefixes); characters are counted as one byte each (ASCII). -/
+def PATH_MAX : Nat := 4096
+
 /-- `open(p, "rb")`: the inode the kernel reaches and whether it is a regular file
-(None = OSError: missing, a directory, a loop ...).  A FIFO or device node can be opened. -/
+(None = OSError: missing, a directory, a loop, a path of PATH_MAX bytes or more ...).  A FIFO or device
+node can be opened. -/
 def openFile (fs : FS) (fuel : Nat) (cwd : Loc) (p : Str) : Option (Nat × Bool) :=
+  if PATH_MAX ≤ p.length then none else
   match kresolve fs fuel cwd p true with
   | some l =>
     match fs.get l with
@@ -288,9 +296,18 @@ inductive Verdict where
   | pass
   deriving Repr, DecidableEq
 
-/-- Check 2 (_core.py:802-810). -/
+/-- the string contains a NUL character: every system call on it (`os.lstat`, `os.stat`, `open`)
+raises `ValueError: embedded null byte` before reaching the kernel -/
+def hasNul (p : Str) : Bool := p.any (· = Char.ofNat 0)
+
+/-- Check 2 (_core.py:802-810).  `os.path.realpath` calls `os.lstat` on every prefix that ends in an
+entry name; on a string with a NUL character that call raises ValueError, which `_joinrealpath`
+does not catch (it catches OSError only), so the check raises (after check 1, which is pure string
+arithmetic and treats NUL as an ordinary character).  `realpath(base_dir)` is evaluated whatever the
+location is, so a NUL in the base directory raises as well. -/
 def check2 (fs : FS) (kfuel fuel : Nat) (cwdS : Str) (cwd : Loc) (base loc : Str) : Bool :=
-  contained (realpath fs kfuel fuel cwdS cwd base) (realpath fs kfuel fuel cwdS cwd (tensorPath base loc))
+  if hasNul base || hasNul loc then false
+  else contained (realpath fs kfuel fuel cwdS cwd base) (realpath fs kfuel fuel cwdS cwd (tensorPath base loc))
 
 /-- Check 3 (_core.py:816-833, with D182): a failing stat skips it; `nlink > 1` raises; a file that
 is not regular raises. -/
@@ -347,6 +364,9 @@ inductive Prim where
   | takeArray    -- the bytes of self._array                      (numpy 909, __array__ 880)
   | takeRawSlice -- self.raw[offset : offset + length]                  (tobytes 929)
   | release      -- self.release()                                      (external_data.py:272)
+  | emptyArray   -- size == 0: self._array = np.empty(...); return      (_load, `if self.size == 0`)
+  | takeEmpty    -- the (no) bytes of the empty self._array
+  | returnEmpty  -- size == 0: return b""                               (tobytes, `if self.size == 0`)
   deriving Repr, DecidableEq
 
 /-- Statements of an entry point: a primitive, or one of the two guards on the cached state. -/
@@ -354,6 +374,7 @@ inductive Stmt where
   | prim (p : Prim)
   | ifNoArray (body : List Prim)   -- if self._array is None: ...
   | ifNoRaw (body : List Prim)     -- if self.raw is None: ...
+  | ifNotLoaded (body : List Prim) -- if self.raw is None or self._array is None: ...   (tobytes)
   deriving Repr
 
 /-- `ExternalTensor._load` (827-873, size > 0): check, open + mmap, frombuffer. -/
@@ -365,7 +386,7 @@ serialisation to raw bytes = `numpy().copy()` then `release()` (external_data.py
 def body : EntryPoint → List Stmt
   | EntryPoint.numpy => [Stmt.ifNoArray loadBody, Stmt.prim Prim.takeArray]
   | EntryPoint.array => [Stmt.ifNoArray loadBody, Stmt.prim Prim.takeArray]
-  | EntryPoint.tobytes => [Stmt.ifNoRaw loadBody, Stmt.prim Prim.takeRawSlice]
+  | EntryPoint.tobytes => [Stmt.ifNotLoaded loadBody, Stmt.prim Prim.takeRawSlice]
   | EntryPoint.tofile => [Stmt.prim Prim.check, Stmt.prim Prim.openCopy]
   | EntryPoint.serializeRaw => [Stmt.ifNoArray loadBody, Stmt.prim Prim.takeArray, Stmt.prim Prim.release]
 
@@ -393,7 +414,7 @@ structure Run where
 was or was not checked before); `check` raises on a rejecting verdict.  mmap raises on an empty
 or non-regular file (size 0) and leaves `raw` untouched; frombuffer raises when the mapping is
 shorter than offset+length (`raw` stays set); the copy loop raises when it cannot read `length`
-bytes. -/
+bytes (with nothing to copy it does not read at all). -/
 def execPrim (e : Env) (r : Run) : Prim → Run
   | Prim.check =>
     let v := checkContainment e.fs e.kfuel e.fuel e.cwdS e.cwd e.base e.loc
@@ -418,7 +439,7 @@ def execPrim (e : Env) (r : Run) : Prim → Run
     | none => { r with events := r.events ++ [Ev.openEv p none], raised := true }
     | some (i, _) =>
       let r' := { r with events := r.events ++ [Ev.openEv p (some i)] }
-      if (e.fs.data i).length < e.offset + e.length then { r' with raised := true }
+      if 0 < e.length ∧ (e.fs.data i).length < e.offset + e.length then { r' with raised := true }
       else { r' with pending := some (sliceOf (e.fs.data i) e.offset e.length) }
   | Prim.takeArray =>
     match r.st.arr, r.st.raw with
@@ -429,6 +450,9 @@ def execPrim (e : Env) (r : Run) : Prim → Run
     | some i => { r with pending := some (sliceOf (e.fs.data i) e.offset e.length) }
     | none => { r with raised := true }
   | Prim.release => { r with st := TState.fresh }
+  | Prim.emptyArray => { r with st := { r.st with arr := true } }
+  | Prim.takeEmpty => if r.st.arr then { r with pending := some [] } else { r with raised := true }
+  | Prim.returnEmpty => { r with pending := some [] }
 
 /-- run primitives until one raises -/
 def execPrims (e : Env) : Run → List Prim → Run
@@ -439,6 +463,7 @@ def execStmt (e : Env) (r : Run) : Stmt → Run
   | Stmt.prim p => execPrim e r p
   | Stmt.ifNoArray b => if r.st.arr = false then execPrims e r b else r
   | Stmt.ifNoRaw b => if r.st.raw = none then execPrims e r b else r
+  | Stmt.ifNotLoaded b => if r.st.raw = none ∨ r.st.arr = false then execPrims e r b else r
 
 def execStmts (e : Env) : Run → List Stmt → Run
   | r, [] => r
@@ -597,5 +622,147 @@ where
   shallowNodes : List NTree → List String
     | [] => []
     | NTree.mk ta gs :: ns => ta ++ initsOf gs ++ shallowNodes ns
+
+end IrVerif.Path
+
+/-! ## Zero-size tensors, `base_dir` values of any type, several tensors re-based through the public API -/
+namespace IrVerif.Path
+
+/-- `_load` of a zero-size tensor (`if self.size == 0:` after the check): an empty array, nothing is
+opened or mapped -/
+def loadBodyZ : List Prim := [Prim.check, Prim.emptyArray]
+
+/-- the entry points on a tensor with `size == 0`: numpy / `__array__` / serialisation run the check
+and return no byte without opening anything; `tobytes` returns `b""` before touching the path at
+all; `tofile` is the same statement list as for any tensor (check, then open and copy `length`
+bytes, where `length` is `self._length or self.nbytes`: it may be non-zero) -/
+def bodyZ : EntryPoint → List Stmt
+  | EntryPoint.numpy => [Stmt.ifNoArray loadBodyZ, Stmt.prim Prim.takeEmpty]
+  | EntryPoint.array => [Stmt.ifNoArray loadBodyZ, Stmt.prim Prim.takeEmpty]
+  | EntryPoint.tobytes => [Stmt.prim Prim.returnEmpty]
+  | EntryPoint.tofile => [Stmt.prim Prim.check, Stmt.prim Prim.openCopy]
+  | EntryPoint.serializeRaw => [Stmt.ifNoArray loadBodyZ, Stmt.prim Prim.takeEmpty, Stmt.prim Prim.release]
+
+/-- the Python type of a `base_dir` value -/
+inductive BaseKind where
+  | str | pathlike | bytes
+  deriving Repr, DecidableEq
+
+/-- a `base_dir` value: its type and `os.fspath` of it.  Values of different types are different
+for the setter's `value != self._base_dir` even when they spell the same directory. -/
+structure BaseVal where
+  kind : BaseKind
+  s : Str
+  deriving Repr, DecidableEq
+
+/-- the immutable fields of one external tensor: location, offset, number of bytes `tofile` copies
+and `tobytes` slices (`self._length or self.nbytes`), and whether `size == 0` -/
+structure TensorP where
+  loc : Str
+  offset : Nat
+  length : Nat
+  zero : Bool
+
+/-- One call of an entry point on a tensor with parameters `p`, base directory value `b`, cached
+state `st`.  A `bytes` base directory makes `os.path.join(base_dir, location)` raise TypeError (str
+location) the first time the path is needed, before any check or open: only `tobytes` of a
+zero-size tensor, which never needs the path, returns. -/
+def callT (fs : FS) (kfuel fuel : Nat) (cwdS : Str) (cwd : Loc) (p : TensorP) (b : BaseVal)
+    (ep : EntryPoint) (st : TState) : ReadResult × List Ev × TState :=
+  if b.kind = BaseKind.bytes then
+    (if p.zero = true ∧ ep = EntryPoint.tobytes then ReadResult.ok [] else ReadResult.raised, [], st)
+  else if p.zero = true then
+    runBody { fs := fs, kfuel := kfuel, fuel := fuel, cwdS := cwdS, cwd := cwd, base := b.s, loc := p.loc,
+              offset := p.offset, length := p.length } st (bodyZ ep)
+  else call fs kfuel fuel cwdS cwd b.s p.loc p.offset p.length ep st
+
+/-- one tensor object: its current `base_dir` and cached state -/
+structure TSess where
+  base : BaseVal
+  st : TState
+
+/-- `base_dir.setter` (D184): the mapping is dropped when the value changes -/
+def TSess.rebase (s : TSess) (b : BaseVal) : TSess :=
+  { base := b, st := if b = s.base then s.st else TState.fresh }
+
+/-- the tree, every tensor object (by creation index), and whether the running
+`convert_tensors_from_external` list comprehension has raised -/
+structure World where
+  fs : FS
+  ts : Nat → TSess
+  aborted : Bool
+
+def World.set (w : World) (t : Nat) (s : TSess) : World :=
+  { w with ts := fun k => if k = t then s else w.ts k }
+
+/-- micro operations: what the public operations expand to -/
+inductive MOp where
+  | setFS (fs : FS)
+  | rebase (t : Nat) (b : BaseVal)   -- tensor.base_dir = b
+  | release (t : Nat)
+  | call (t : Nat) (ep : EntryPoint)
+  | beginLoad                         -- a convert_tensors_from_external([...]) starts
+  | loadOne (t : Nat)                 -- its next element (skipped once an earlier one raised)
+
+/-- the public operations on a model with external tensors -/
+inductive WOp where
+  | setFS (fs : FS)
+  | setBase (t : Nat) (b : BaseVal)            -- `tensor.base_dir = b`
+  | setBaseDir (ts : List Nat) (b : BaseVal)   -- `external_data.set_base_dir(graph, b)`: the tensors its walker reaches, in order
+  | release (t : Nat)
+  | call (t : Nat) (ep : EntryPoint)
+  | loadToModel (ts : List Nat)                -- `load_to_model` / `convert_tensors_from_external`: in order, stops at the first raise
+
+def WOp.expand : WOp → List MOp
+  | WOp.setFS fs => [MOp.setFS fs]
+  | WOp.setBase t b => [MOp.rebase t b]
+  | WOp.setBaseDir ts b => ts.map (MOp.rebase · b)
+  | WOp.release t => [MOp.release t]
+  | WOp.call t ep => [MOp.call t ep]
+  | WOp.loadToModel ts => MOp.beginLoad :: ts.map MOp.loadOne
+
+/-- what one call did -/
+structure WLog where
+  t : Nat
+  fs : FS
+  base : BaseVal
+  ep : EntryPoint
+  res : ReadResult
+  events : List Ev
+
+def stepWorld (kfuel fuel : Nat) (cwdS : Str) (cwd : Loc) (ps : Nat → TensorP) (w : World) :
+    MOp → World × Option WLog
+  | MOp.setFS fs => ({ w with fs := fs }, none)
+  | MOp.rebase t b => (w.set t ((w.ts t).rebase b), none)
+  | MOp.release t => (w.set t { (w.ts t) with st := TState.fresh }, none)
+  | MOp.call t ep =>
+    let r := callT w.fs kfuel fuel cwdS cwd (ps t) (w.ts t).base ep (w.ts t).st
+    (w.set t { (w.ts t) with st := r.2.2 },
+      some { t := t, fs := w.fs, base := (w.ts t).base, ep := ep, res := r.1, events := r.2.1 })
+  | MOp.beginLoad => ({ w with aborted := false }, none)
+  | MOp.loadOne t =>
+    if w.aborted then (w, none)
+    else
+      let r := callT w.fs kfuel fuel cwdS cwd (ps t) (w.ts t).base EntryPoint.serializeRaw (w.ts t).st
+      ({ (w.set t { (w.ts t) with st := r.2.2 }) with aborted := decide (r.1 = ReadResult.raised) },
+        some { t := t, fs := w.fs, base := (w.ts t).base, ep := EntryPoint.serializeRaw, res := r.1, events := r.2.1 })
+
+/-- run micro operations; the log of calls, oldest first -/
+def runMicro (kfuel fuel : Nat) (cwdS : Str) (cwd : Loc) (ps : Nat → TensorP) : World → List MOp → List WLog
+  | _, [] => []
+  | w, x :: xs =>
+    let r := stepWorld kfuel fuel cwdS cwd ps w x
+    match r.2 with
+    | some e => e :: runMicro kfuel fuel cwdS cwd ps r.1 xs
+    | none => runMicro kfuel fuel cwdS cwd ps r.1 xs
+
+def expandAll : List WOp → List MOp
+  | [] => []
+  | o :: os => o.expand ++ expandAll os
+
+/-- a history of public operations -/
+def runWorld (kfuel fuel : Nat) (cwdS : Str) (cwd : Loc) (ps : Nat → TensorP) (w : World) (ops : List WOp) :
+    List WLog :=
+  runMicro kfuel fuel cwdS cwd ps w (expandAll ops)
 
 end IrVerif.Path
